@@ -278,6 +278,7 @@ func AssembleFile(ctx context.Context, name string, idx Index, s Store, seeds []
 		// Found a valid plan
 		break
 	}
+	verifTracePlan(attempt, plan, seeds)
 
 	pb = NewProgressBar(fmt.Sprintf("Attempt %d: Assembling ", attempt))
 	pb.SetTotal(len(idx.Chunks))
